@@ -28,6 +28,9 @@ type RCase struct {
 	Binds []RBind  `json:"binds"`
 	Ticks []string `json:"ticks"` // binding names in arrival order
 	Fails int      `json:"fails"` // the first executions of the hook fail this many times
+	// Late: ticks that arrive while the queue sleeps in the back-off after the first failure (bindings without
+	// group only): the retry takes them in
+	Late []string `json:"late,omitempty"`
 }
 
 var retryCrontabs = map[string]string{"s0": "0 0 1 1 *", "s1": "0 0 2 1 *", "s2": "0 0 3 1 *", "blk": "0 0 9 1 *"}
@@ -43,6 +46,14 @@ func genRetry(t *rapid.T) RCase {
 	}
 	for i, n := 0, rapid.IntRange(2, 6).Draw(t, "nt"); i < n; i++ {
 		c.Ticks = append(c.Ticks, rapid.SampledFrom(names).Draw(t, "tick"))
+	}
+	if rapid.Bool().Draw(t, "late") {
+		for i := range c.Binds {
+			c.Binds[i].Group = ""
+		}
+		for i, n := 0, rapid.IntRange(1, 3).Draw(t, "nlate"); i < n; i++ {
+			c.Late = append(c.Late, rapid.SampledFrom(names).Draw(t, "ltick"))
+		}
 	}
 	return c
 }
@@ -84,7 +95,31 @@ func runRetry(c RCase) (ev.Info, error) {
 	}
 	env.Tick("59 23 31 12 *")
 	env.Tick("59 23 31 12 *")
+	if len(c.Late) > 0 {
+		// a back-off long enough for the late ticks to be queued before the retry
+		if q := env.Op.TaskQueues.GetByName("main"); q != nil {
+			q.ExponentialBackoffFn = func(int) time.Duration { return 400 * time.Millisecond }
+		}
+	}
 	kit.Must(env.Tree.OpenGate("g0"))
+	if len(c.Late) > 0 {
+		if _, ok := env.Tree.WaitLog(20*time.Second, func(rs []vh.Record) bool {
+			for _, r := range rs {
+				if r.Hook == "h" && r.Phase == "end" {
+					return true
+				}
+			}
+			return false
+		}); !ok {
+			return info, fmt.Errorf("harness: the first execution of the hook did not end")
+		}
+		for _, tk := range c.Late {
+			env.Tick(retryCrontabs[tk])
+		}
+		env.Tick("59 23 31 12 *")
+		env.Tick("59 23 31 12 *")
+		info.Labels = append(info.Labels, "ticks-during-back-off")
+	}
 	if !env.WaitIdle(10*time.Millisecond, 40*time.Second) {
 		return info, fmt.Errorf("harness: operator did not become idle at the end")
 	}
@@ -114,14 +149,22 @@ func runRetry(c RCase) (ev.Info, error) {
 		if exits[i-1] == 0 {
 			break
 		}
-		if runs[i] != runs[0] {
-			return info, fmt.Errorf("the failed execution received the contexts [%s], its retry (attempt %d) received [%s]: the combined binding contexts did not survive the failure", runs[0], i+1, runs[i])
+		want := runs[0]
+		if i == 1 {
+			for _, tk := range c.Late {
+				want += "," + tk + "/Schedule"
+			}
+		} else if len(c.Late) > 0 {
+			want = runs[1]
+		}
+		if runs[i] != want {
+			return info, fmt.Errorf("the failed execution received the contexts [%s], its retry (attempt %d) received [%s], expected [%s]: the retry carries the combined contexts of the failed run plus those of the tasks queued behind it meanwhile", runs[0], i+1, runs[i], want)
 		}
 	}
 	return info, nil
 }
 
-const ruleRetry = "the real operator: a hook with 2-3 schedule bindings (groups none/g1) in the main queue, 2-6 ticks piled up behind a parked blocker so that they are combined into one execution, which fails 1-2 times; oracle: every retry receives exactly the binding contexts (binding/type sequence) of the failed execution. Non-trivial: the failed execution carried >= 2 contexts."
+const ruleRetry = "the real operator: a hook with 2-3 schedule bindings (groups none/g1) in the main queue, 2-6 ticks piled up behind a parked blocker so that they are combined into one execution, which fails 1-2 times; in half of the cases 1-3 further ticks arrive during the (lengthened) back-off; oracle: every retry receives exactly the binding contexts (binding/type sequence) of the failed execution, followed by those of the tasks queued behind it meanwhile. Non-trivial: the failed execution carried >= 2 contexts."
 
 func TestRetryKeepsContexts(t *testing.T) {
 	ev.Main(t, ev.Spec[RCase]{Property: "C07", Part: "retry", Rule: ruleRetry, Gen: genRetry, Run: runRetry, Journal: true})
